@@ -226,3 +226,51 @@ pub enum Q2 {
 }
 pub static Q2_DEF: Def = Def { name: "Q2", utf8: true, decide: no_callbacks, log_callbacks: false, default_err: plain_default, pats: &[] };
 corpus_impl!(Q2, str, Q2_DEF, |t| match t { Q2::Int => 1, Q2::Dimension => 2, Q2::Ident => 3, Q2::Space => 4, Q2::XAtEnd => 5 }, |_e| 0, |_x| (0, true, 0, 0));
+
+// ---- C12: a definition with a Unicode-sensitive *str* subpattern, in str mode and with utf8 = false
+#[derive(Logos, Debug, PartialEq, Clone, Copy)]
+#[logos(subpattern nota = "[^a]")]
+#[logos(subpattern word = r"\w")]
+pub enum M3 {
+    #[regex("x(?&nota)")] XNotA,
+    #[regex("y(?&word)+")] YWord,
+    #[token("x")] X,
+}
+#[derive(Logos, Debug, PartialEq, Clone, Copy)]
+#[logos(utf8 = false)]
+#[logos(subpattern nota = "[^a]")]
+#[logos(subpattern word = r"\w")]
+pub enum M3B {
+    #[regex("x(?&nota)")] XNotA,
+    #[regex("y(?&word)+")] YWord,
+    #[token("x")] X,
+}
+// relational only (no pattern table: \w is too large a class to write out)
+pub static M3_DEF: Def = Def { name: "M3", utf8: true, decide: no_callbacks, log_callbacks: false, default_err: plain_default, pats: &[] };
+pub static M3B_DEF: Def = Def { name: "M3B", utf8: false, decide: no_callbacks, log_callbacks: false, default_err: plain_default, pats: &[] };
+corpus_impl!(M3, str, M3_DEF, |t| match t { M3::XNotA => 1, M3::YWord => 2, M3::X => 3 }, |_e| 0, |_x| (0, true, 0, 0));
+corpus_impl!(M3B, bytes, M3B_DEF, |t| match t { M3B::XNotA => 1, M3B::YWord => 2, M3B::X => 3 }, |_e| 0, |_x| (0, true, 0, 0));
+
+// ---- C18: a byte-string subpattern that can match invalid UTF-8, listed before / after `utf8 = false`
+#[derive(Logos, Debug, PartialEq, Clone, Copy)]
+#[logos(utf8 = false, subpattern hi = b"[\x80-\xff]", skip "_")]
+pub enum O3 {
+    #[regex(b"h(?&hi)")] H,
+    #[token("h")] JustH,
+}
+#[derive(Logos, Debug, PartialEq, Clone, Copy)]
+#[logos(subpattern hi = b"[\x80-\xff]", skip "_", utf8 = false)]
+pub enum O3A {
+    #[regex(b"h(?&hi)")] H,
+    #[token("h")] JustH,
+}
+pub static O3_DEF: Def = Def {
+    name: "O3", utf8: false, decide: no_callbacks, log_callbacks: false, default_err: plain_default,
+    pats: &[
+        Pat { p: P::Lit(b"_"), prio: 2, act: Act::Skip },
+        Pat { p: P::Cat(&[P::Lit(b"h"), P::Class(&[(0x80, 0xFF)])]), prio: 4, act: Act::Tok(1) },
+        Pat { p: P::Lit(b"h"), prio: 2, act: Act::Tok(2) },
+    ],
+};
+corpus_impl!(O3, bytes, O3_DEF, |t| match t { O3::H => 1, O3::JustH => 2 }, |_e| 0, |_x| (0, true, 0, 0));
+corpus_impl!(O3A, bytes, O3_DEF, |t| match t { O3A::H => 1, O3A::JustH => 2 }, |_e| 0, |_x| (0, true, 0, 0));
